@@ -58,11 +58,12 @@ _ESC = {ord('"'): '"', ord("\\"): "\\", ord("/"): "/", ord("b"): "\b", ord("f"):
 class Reader:
     """Strict reader over bytes."""
 
-    def __init__(self, data, max_depth=512, lone_surrogates=False):
+    def __init__(self, data, max_depth=512, lone_surrogates=False, merge_duplicates=False):
         self.d = data
         self.n = len(data)
         self.max_depth = max_depth
         self.lone_surrogates = lone_surrogates
+        self.merge_duplicates = merge_duplicates      # only for matching a known defect model: repeated names keep the last value
 
     def skip_ws(self, i):
         d, n = self.d, self.n
@@ -193,7 +194,7 @@ class Reader:
                 raise JsonError("expected :", i)
             i = self.skip_ws(i + 1)
             v, i = self.value(i, depth + 1)
-            if k in out:
+            if k in out and not self.merge_duplicates:
                 raise DuplicateKey("duplicate member name %r" % k, i)
             out[k] = v
             i = self.skip_ws(i)
@@ -236,11 +237,11 @@ def read_stream(data):
     return out
 
 
-def read_rows(data, sep=b"\n", lone_surrogates=False):
+def read_rows(data, sep=b"\n", lone_surrogates=False, merge_duplicates=False):
     """jawk JSON-mode stdout: rows each followed by `sep`.  Returns list of values.
     Every row must be exactly one JSON text; raises JsonError otherwise."""
     out = []
-    r = Reader(data, lone_surrogates=lone_surrogates)
+    r = Reader(data, lone_surrogates=lone_surrogates, merge_duplicates=merge_duplicates)
     i = 0
     n = len(data)
     while i < n:
